@@ -1,37 +1,29 @@
 """Per-property configuration of the orchestrator (bin/check).
 
+One JSON file per property in tools/props.d/<id>.json (so that branches never conflict):
+
 groups      harness generator groups whose cases decide the property (qvh gen <group> …)
 module      Lean module holding the property's theorems (QV.Properties.<id> by default)
 features    cargo features of /repo the harness needs for this property
 strict_err  compare error *variants* between implementation and model for the verdict
             (only where the property names the error; otherwise informational)
 design_ref  DESIGN.md section
+technique, level_text, level_note, assumptions, evidence_notes   free text for MANIFEST/evidence
 """
+import glob
+import json
+import os
 
-PROPS = {
-    "C14": {
-        "groups": ["wire"],
-        "design_ref": "§6 C14",
-        "technique": "Lean 4 proof: parser ↔ inductive RFC 1035 §4.1.4 relation (sound+complete, no panic, termination); model tied to src/name/wire.rs by differential correspondence incl. exhaustive ≤5-octet buffers",
-    },
-    "C17": {
-        "groups": ["codes"],
-        "design_ref": "§6 C17",
-        "technique": "Lean 4 proof over the extracted mnemonic tables: display→parse round trip for all 65536 values × 4 kinds (decimal print/parse lemma by induction + finite table facts by kernel evaluation), RFC 3597 TYPEnnn/CLASSnnn for every value and every case variant of the word, 4-bit conversions; Rust's u16::from_str / eq_ignore_ascii_case / str::get modelled on UTF-8 octets; model tied to the source by an exhaustive differential run (all values, all case variants of all mnemonics)",
-        "assumptions": [
-            "core::num u16::from_str, str::eq_ignore_ascii_case, str::get/is_char_boundary and Display for u16 are re-implemented in the model (QV/Model/Codes.lean) and compared with the real ones through the harness on every case",
-        ],
-        "evidence_notes": [
-            "exhaustive in both tiers: crt/cdisp over 4 kinds × 65536 values, copc/crc over 256, cext over 65536, every ASCII-case variant of every mnemonic × 4 kinds, the exact word + one random case variant of TYPE/CLASS × 65536 values × 4 kinds",
-            "known finding D13: mnemonic arms `match Caseless(text) { Caseless(\"IN\") => … }` are structural patterns, i.e. case-sensitive; Lean: C17_counterexample / C17_mnemonic_variant_rejected; C17_partial excludes exactly KF_caseVariant",
-        ],
-    },
-}
+_HERE = os.path.dirname(os.path.abspath(__file__))
+PROPS = {}
+for _p in sorted(glob.glob(os.path.join(_HERE, "props.d", "C*.json"))):
+    with open(_p, encoding="utf-8") as _f:
+        PROPS[os.path.basename(_p)[:-5]] = json.load(_f)
 
 TRUSTED_BASE = [
     "Lean 4.33.0 kernel (leanchecker re-check in the thorough tier)",
     "axioms allowed: propext, Classical.choice, Quot.sound (audited per theorem with #print axioms); no sorry/admit/native_decide/bv_decide/own axioms",
     "QV/Spec/*: that the specification says what the property says (DESIGN.md §6 records every interpretation)",
     "correspondence check (harness/ + Lean driver + canonicaliser): differential testing that the hand-written model mirrors /repo's current source; the extractor (tools/extract.py) ties constants and tables",
-    "rustc/cargo dev profile (overflow checks on); std, arrayvec, hashbrown, hmac/sha crates as used by quandary",
+    "rustc/cargo dev profile (overflow checks on); std, arrayvec, hashbrown, hmac/sha crates as used by quandary"
 ]
